@@ -84,20 +84,21 @@ def gen_mux(rnd, tier, exh=None):
                 "ov": ov, "bad": None}
     dw = rnd.choice([1, 4, 8, 8, 13, 16, 32])
     aw = rnd.choice([1, 2, 3, 4, 5, 6, 6, 7, 8, 10, 12])
-    style = rnd.choice(["natural", "packed", "unaligned", "unaligned", "padded", "big", "alias", "alias"])
+    style = rnd.choice(["natural", "packed", "unaligned", "unaligned", "padded", "big", "alias", "alias", "alias"])
     if style == "alias":
-        # back-to-back registers from an odd address: some alias whatever the shadow size is (F2)
+        # back-to-back registers from an odd address: a two-address register at an odd start shares a chunk
+        # with its predecessor whatever the shadow size is (F2)
         aw = rnd.choice([3, 4, 5, 6])
-        cur = rnd.choice([1, 2, 3, 5])
+        cur = rnd.choice([1, 1, 3, 5, 2])
         regs = []
-        for i in range(rnd.choice([2, 2, 3, 4, 5])):
-            size = rnd.choice([1, 1, 2, 2, 3])
+        for i in range(rnd.choice([2, 3, 3, 4, 5, 6])):
+            size = rnd.choice([1, 2, 2, 3]) if i else rnd.choice([1, 1, 2])
             if cur + size > (1 << aw):
                 break
-            acc = rnd.choice(["r", "w", "rw", "rw", "rw"])
+            acc = rnd.choice(["r", "w", "rw", "rw", "rw", "rw", "rw", "rw"])
             regs.append([cur, cur + size, size * dw - rnd.choice([0, 0, 1]), int("r" in acc), int("w" in acc)])
-            cur += size + rnd.choice([0, 0, 0, 1])
-        return {"aw": aw, "dw": dw, "regs": regs, "ov": rnd.choice([0, 0, 0, 1, 1, 2, None]), "bad": None}
+            cur += size + rnd.choice([0, 0, 0, 0, 1])
+        return {"aw": aw, "dw": dw, "regs": regs, "ov": rnd.choice([0, 0, 0, 0, 0, 1, 1, None]), "bad": None}
     regs = []
     cur = 0
     top = 1 << aw
